@@ -1,7 +1,8 @@
 """C02 - the compiler never crashes and never fails silently.
 
 Workload: corpus, mutated corpus, token soup, exhaustive short token sequences in three
-contexts, nesting stress (<= 256), size stress (<= 64 KiB), module sets.
+contexts, nesting stress (<= 256), size stress (<= 64 KiB), module sets, every function body of <= 4/5 statements over
+the statement-placement and goto/label alphabets, random dependency graphs (cycles of length 1-5 in every order).
 Oracle: exit-state classifier over the worker (real penne API driven as main.rs does)."""
 import json
 import os
@@ -135,6 +136,21 @@ def cases(tier, seed):
         j = rng.randrange(len(fs))
         op, fs[j][1] = gen_mutate.mutate(rng, fs[j][1])
         yield {"kind": "modules_mutant", "files": [tuple(x) for x in fs], "meta": op}
+    # 10. statement-level small scope: every function body of <= 4 (quick) / 5 statements over the placement alphabet
+    #     (blocks, naked and braced branches, loop, goto, label, assignment) and over the label/goto alphabet
+    from . import gen_scope, gen_prog, c11
+    for size in range(1, 5 if quick else 6):
+        for b in gen_scope.c06_seqs(size, 3, {}):
+            body = gen_scope.unique_labels(gen_scope.renumber_bumps(b)) + [("label", "l")]
+            yield {"kind": "stmts_placement", "files": [("stmts.pn", gen_prog.to_source(gen_scope.program_with_main(body)))]}
+    for size in range(1, 4 if quick else 5):
+        for b in gen_scope.seqs(size, 2, gen_scope.C04_ATOMS, None, {}):
+            yield {"kind": "stmts_goto", "files": [("stmts.pn", gen_prog.to_source(gen_scope.program_with_main(gen_scope.renumber_bumps(b))))]}
+    # 11. dependency graphs of constants and structures in random declaration order, half of them with a cycle of length 1-5
+    for i in range(400 if quick else 20000):
+        g_rng = common.rng_for(seed, PROP, "depgraph", i)
+        src = c11.graph_source(g_rng, i)[0]
+        yield {"kind": "depgraph", "files": [("graph.pn", src)]}
     # 9. AddressSanitizer build of the worker (Rust side of the first-generation compiler) on a sample
     if not quick:
         for p, t in corpus:
